@@ -11,29 +11,29 @@ import (
 )
 
 func FuzzParse(f *testing.F) {
-	n := c09.FuzzDictCount()
-	for i, m := range c09.FuzzSeedMessages(150) {
-		f.Add(m, uint8(i%n), uint8(i))
+	for _, a := range c09.FuzzSeeds("FuzzParse") {
+		f.Add(a[0].([]byte), a[1].(uint8), a[2].(uint8))
 	}
 	f.Fuzz(func(t *testing.T, data []byte, dict uint8, sel uint8) { c09.FuzzParseOne(data, dict, sel) })
 }
 
 func FuzzStream(f *testing.F) {
-	ms := c09.FuzzSeedMessages(40)
-	for i := 0; i+2 < len(ms); i += 3 {
-		f.Add(append(append(append([]byte{}, ms[i]...), ms[i+1]...), ms[i+2]...), uint8(i))
+	for _, a := range c09.FuzzSeeds("FuzzStream") {
+		f.Add(a[0].([]byte), a[1].(uint8))
 	}
 	f.Fuzz(func(t *testing.T, data []byte, chunk uint8) { c09.FuzzStreamOne(data, chunk) })
 }
 
 func FuzzDictionary(f *testing.F) {
-	f.Add(c09.FuzzDictionarySeed())
+	for _, a := range c09.FuzzSeeds("FuzzDictionary") {
+		f.Add(a[0].(string))
+	}
 	f.Fuzz(func(t *testing.T, text string) { c09.FuzzDictionaryOne(text) })
 }
 
 func FuzzSettings(f *testing.F) {
-	for _, s := range c09.FuzzSettingsSeeds() {
-		f.Add(s)
+	for _, a := range c09.FuzzSeeds("FuzzSettings") {
+		f.Add(a[0].(string))
 	}
 	f.Fuzz(func(t *testing.T, text string) { c09.FuzzSettingsOne(text) })
 }
